@@ -427,6 +427,62 @@ def _expand(path, meta):
                                       drops=["D1: attributes and comments", "D4: pub(crate)/pub(super)/private -> pub"]))
             segs.append(Seg(txt + "\n", "code", dict(rec=dict(file=rel, item=name, line=src.count("\n", 0, t["start"]) + 1), off=0)))
             i += 1
+        elif s.startswith("//@argslice "):
+            # every function under <dir> that takes `args: &[Node]`, sliced with respect to argument indexing (vf/argslice.py)
+            from . import argslice
+            sub = s.split()[1]
+            root = os.path.join(REPO, sub)
+            files = []
+            for d, _ds, fs in os.walk(root):
+                if re.search(r"/(test|tests)(/|$)", d):
+                    continue
+                for fnm in sorted(fs):
+                    if fnm.endswith(".rs") and not fnm.startswith("test"):
+                        files.append(os.path.relpath(os.path.join(d, fnm), REPO))
+            nfn = 0
+            for rel in sorted(files):
+                src, m = repo_file(rel)
+                for mm in re.finditer(r"\bfn\s+(\w+)\s*(<[^>]*>)?\s*\(", m):
+                    ob = mm.end() - 1
+                    try:
+                        cb = R.match_bracket(m, ob)
+                    except ExtractError:
+                        continue
+                    params = m[ob:cb + 1]
+                    if not re.search(r"\bargs\s*:\s*&\s*\[\s*Node\s*\]", params):
+                        continue
+                    k = cb + 1
+                    while k < len(m) and m[k] not in "{;":
+                        k += 1
+                    if k >= len(m) or m[k] != "{":
+                        continue
+                    f = dict(start=mm.start(), body_open=k, end=R.match_bracket(m, k) + 1)
+                    stem = re.sub(r"\W", "_", rel[len(sub):].strip("/")[:-3])
+                    name = f"args_{stem}__{mm.group(1)}"
+                    raw = src[f["start"]:f["end"]]
+                    rec = dict(kind="argslice", file=rel, item=mm.group(1), byte_range=[f["start"], f["end"]], line=src.count("\n", 0, f["start"]) + 1,
+                               sha256=hashlib.sha256(raw.encode()).hexdigest(), rewrites=[],
+                               drops=["slice: everything except arity tests, control structure, `?`/return and `args[..]` accesses (vf/argslice.py)"])
+                    if not mm.group(1).startswith("fn_"):
+                        # a helper that receives the caller's argument list: what it may index depends on its call sites (a call-site
+                        # precondition would be needed); entry points are the `fn_*` functions the dispatcher calls with the full list
+                        if re.search(r"\bargs\s*\[", m[f["body_open"]:f["end"]]):
+                            rec["drops"].append("NOT SLICED (helper: indexes a list whose length its callers guarantee): not under contract")
+                            meta["extracted"].append(rec)
+                        continue
+                    try:
+                        txt, nacc = argslice.slice_function(src, m, f, name)
+                    except (argslice.Unsliceable, ExtractError, IndexError) as e:
+                        rec["drops"].append(f"NOT SLICED ({e}): not under contract")
+                        meta["extracted"].append(rec)
+                        continue
+                    if nacc == 0:
+                        continue          # the function never indexes `args`: nothing to prove, not listed
+                    meta["extracted"].append(rec)
+                    segs.append(Seg(txt, "code", dict(rec=rec, off=0)))
+                    nfn += 1
+            meta["argslice_functions"] = nfn
+            i += 1
         elif s.startswith("//@stub "):
             # R2: opaque callee declared from its REAL signature; following lines (until //@end) are the ASSUMED contract
             _, rel, path = s.split()[:3]
